@@ -414,24 +414,35 @@ def all_ids():
 
 
 def setup():
+    """Builds everything the claimed checks need, property by property.  Best effort: a failure for
+    one property is logged and does not stop the others (each check rebuilds what it needs itself and
+    reports on its own), so setup always exits 0."""
     t0 = time.time()
     rc, out = run([sys.executable, os.path.join(ROOT, "tools", "extract_tables.py"), "--all"])
     print(out)
-    with Lock("lake"):
-        targets = []
-        for pid in all_ids():
-            c = load_cfg(pid)
-            targets += c.get("theorem_modules", []) + [c["exe"]]
-        rc1, out = run(["lake", "build"] + sorted(set(targets)), cwd=LEAN, timeout=7200)
-        print(out[-3000:])
+    failed = []
+    for pid in all_ids():
+        c = load_cfg(pid)
+        with Lock("lake"):
+            rc1, out = run(["lake", "build"] + c.get("theorem_modules", []) + [c["exe"]], cwd=LEAN, timeout=7200)
+        if rc1 != 0:
+            failed.append(pid + ":lake")
+            print(out[-2000:])
     with Lock("cargo"):
         bins = []
         for pid in all_ids():
             bins += ["--bin", load_cfg(pid)["harness_bin"]]
         rc2, out = run(["cargo", "build", "--offline"] + bins, cwd=HARNESS, timeout=7200)
-        print(out[-3000:])
-    log(f"setup done in {time.time() - t0:.0f}s (lake rc={rc1}, cargo rc={rc2})")
-    return 0 if rc1 == 0 and rc2 == 0 else 1
+        if rc2 != 0:
+            # fall back to one binary at a time so that one broken harness does not block the rest
+            print(out[-2000:])
+            for pid in all_ids():
+                rc3, out3 = run(["cargo", "build", "--offline", "--bin", load_cfg(pid)["harness_bin"]],
+                                cwd=HARNESS, timeout=7200)
+                if rc3 != 0:
+                    failed.append(pid + ":cargo")
+    log(f"setup done in {time.time() - t0:.0f}s" + (f"; could not build: {' '.join(failed)}" if failed else ""))
+    return 0
 
 
 def main():
